@@ -721,7 +721,8 @@ fn function_to_function_ir(
         cards: function.cards.clone().into_boxed_slice(),
         imports,
         namespace: Default::default(),
-        handle: Handle::from_u64(i as u64),
+        // `from_u32` maps distinct indices to distinct handles
+        handle: Handle::from_u32(i as u32),
     };
     cl.namespace.extend(
         namespace
